@@ -57,7 +57,7 @@ def run_tlc(spec, module, tag, consts, invs=(), props=(), view=None,
 
 
 PROTO_CONSTS = dict(K=3, Kinds=ALLKINDS, MaxReplies=4, UnknownId=99,
-                    CheckType='TRUE', FailAll='TRUE')
+                    AllowUnknown='TRUE', CheckType='TRUE', FailAll='TRUE')
 PROTO_INVS = ['OwnReply', 'NoPhantomReply', 'UnknownIdFails',
               'WaitsIffUnanswered']
 
@@ -84,6 +84,54 @@ def main(ctx):
         seen[key] = seen.get(key, 0) + 1
         if seen[key] <= cap:
             ctx.violation(sig, what, replay=replay)
+
+    if ctx.replay_path:
+        with open(ctx.replay_path) as f:
+            rp = json.load(f)['replay']
+        ctx.count(('replay', ctx.replay_path))
+        if rp['kind'] == 'client':
+            replies = [tuple(x) for x in rp['replies']]
+            r = sftp_proto.client_replay(rp['kinds'], replies, rp['version'])
+            sftp_io.drop_world()
+            print('observed:', r.get('observed'))
+            for clause in sorted({c for c, _ in r['l1']}):
+                violate({'module': 'SftpProto', 'clause': clause,
+                         'kinds': rp['kinds'], 'replies': replies,
+                         'version': rp['version']},
+                        '; '.join(t for c, t in r['l1'] if c == clause), rp)
+        elif rp['kind'] == 'attrs':
+            # expectation of the intended table: every listed field survives
+            # when the version defines it; recomputed by the TLC table run
+            res = run_tlc(ATTRS, 'SftpAttrs', 'c14_attrs_r',
+                          dict(Emit='TRUE', AllocGuard='FALSE',
+                               PairRule='TRUE', Vary='{}',
+                               Always=tlc.tla_str(set(rp['fields']))),
+                          ATTR_INVS, workers=1)
+            ctx.require_tlc_ok('SftpAttrs single case', res)
+            for row in sftp_proto.printed_multiline(res.output):
+                if row[0] != rp['v']:
+                    continue
+                l1, _div, _note = sftp_proto.attrs_case(
+                    row[0], sorted(row[1]['$set']), row[2],
+                    [tuple(x) for x in row[3]['$set']], row[4], row[5],
+                    ftype=rp['type'], as_name=rp['as_name'])
+                print('monitors:', l1)
+                for clause, text in l1:
+                    violate({'module': 'SftpAttrs', 'clause': clause,
+                             'v': rp['v'], 'fields': rp['fields'],
+                             'type': rp['type']}, text, rp)
+        elif rp['kind'] == 'server':
+            sw = sftp_proto.ServerWorld()
+            try:
+                sess = sw.session(rp['v'])
+                rid = sess.request(rp['ptype'], bytes.fromhex(rp['body']))
+                probe = sess.exchange(16, sftp_proto.sstr(b'.') +
+                                      (b'\x01' if rp['v'] >= 6 else b''))
+                print(f'request id {rid}: probe answered: {probe is not None}'
+                      f'; re-run the full check for the verdict')
+            finally:
+                sw.close()
+        return
 
     # ---- TLC runs, in parallel JVMs ----------------------------------------
     jobs = {}
@@ -113,13 +161,19 @@ def main(ctx):
             run_tlc, PROTO, 'SftpProto', 'c14_sim', PROTO_CONSTS, (), (),
             None, workers=4, simulate=f'file={d}/tr,num={nsim}', depth=6,
             seed=ctx.seed * 10 + 3, deadlock=False)
-        jobs['sim2'] = None
         d2 = tlc.workdir('c14_sim2_out')
         jobs['sim2'] = ex.submit(
             run_tlc, PROTO, 'SftpProto', 'c14_sim2',
             dict(PROTO_CONSTS, K=2, MaxReplies=3), (), (), None, workers=2,
             simulate=f'file={d2}/tr,num={nsim // 2}', depth=5,
             seed=ctx.seed * 10 + 4, deadlock=False)
+        # no unknown id: longer interleavings of replies to known ids
+        d3 = tlc.workdir('c14_sim3_out')
+        jobs['sim3'] = ex.submit(
+            run_tlc, PROTO, 'SftpProto', 'c14_sim3',
+            dict(PROTO_CONSTS, AllowUnknown='FALSE'), (), (), None,
+            workers=4, simulate=f'file={d3}/tr,num={nsim}', depth=6,
+            seed=ctx.seed * 10 + 5, deadlock=False)
         jobs['srv'] = ex.submit(
             run_tlc, PROTO, 'SftpSrvCases', 'c14_srv', dict(Emit='TRUE'),
             ['OneReplyOwed', 'DamageIsError', 'CodeInVersion', 'V6Exact',
@@ -169,7 +223,7 @@ def main(ctx):
     ctx.require_tlc_ok('SftpAttrs without pairing rules (must violate '
                        'NothingInvented)', res['attrs_nopair'],
                        expect_violation='NothingInvented')
-    for k in ('sim', 'sim2'):
+    for k in ('sim', 'sim2', 'sim3'):
         if res[k].error and res[k].error != 'timeout':
             raise MachineryError(f'simulate {k}: {res[k].error}\n' +
                                  res[k].output[-2000:])
@@ -177,7 +231,7 @@ def main(ctx):
 
     # ---- 1. client behaviours ---------------------------------------------
     nclient = 0
-    for dd in (d, d2):
+    for dd in (d, d2, d3):
         for _name, steps in tlc.read_sim_traces(dd, 'tr_'):
             kinds, replies, outcomes, closed = sftp_proto.split_behaviour(
                 [(st['lbl'], st) for _, st in steps])
@@ -213,6 +267,7 @@ def main(ctx):
     sftp_io.drop_world()
     tlc.cleanup('c14_sim_out')
     tlc.cleanup('c14_sim2_out')
+    tlc.cleanup('c14_sim3_out')
     ctx.require(nclient > 100, f'only {nclient} client behaviours replayed')
     ctx.traces_validated(nclient)
 
